@@ -754,7 +754,17 @@ func c10Family(fam string, n, kind int, probes []geojson.Object, w *rt.Worker, e
 			var o geojson.Object
 			switch {
 			case fam == "mixed+empties" && i%5 == 0:
-				o = geojson.NewLineString(geometry.NewLine(nil, nil))
+				// children that occupy no space: without positions, and (every other
+				// one) with positions that still count - a line of one position, a
+				// polygon whose ring has two
+				switch (i / 5) % 4 {
+				case 1:
+					o = geojson.NewLineString(geometry.NewLine([]geometry.Point{pt(i)}, nil))
+				case 3:
+					o = geojson.NewPolygon(geometry.NewPoly([]geometry.Point{pt(i), pt(i + 1)}, nil, nil))
+				default:
+					o = geojson.NewLineString(geometry.NewLine(nil, nil))
+				}
 				parseable = false
 			case fam == "nested-empty-members" && i%11 == 3:
 				// non-empty Multi* children that themselves hold an empty member (constructor-only)
